@@ -6,8 +6,8 @@ accepts / reduce), line by line, over tables regenerated from the generated pars
 `Parser::add_content` on top of it.
 
 * every loop is fuel-bounded (`fuelOut` is an explicit outcome, never hidden);
-* `reduce` checks that the popped symbols are exactly the production's right-hand side (finer than
-  Rust's `__pop_VariantN`, which checks the value type only): an inconsistent table is a model panic;
+* `reduce` checks that the popped symbols are exactly the production's right-hand side, by symbol id
+  (finer than Rust's `__pop_VariantN`, which checks the value type only): a mismatch is a panic;
 * Rust `unwrap()`s and indexing are explicit panics.
 -/
 
@@ -17,6 +17,7 @@ open Aidl.Actions Aidl.Lexer
 structure Production where
   lhs : String
   rhs : List String
+  rhsIds : List Nat   -- symbol ids: terminal = ACTION column, `error` = last column, non-terminal = ncols + index
   pops : Nat          -- `states_to_pop` (= rhs.length)
   nt : Nat            -- `nonterminal_produced`
   action : Nat
@@ -37,7 +38,8 @@ structure Tables where
 
 structure Sym where
   start : Nat
-  name : String        -- grammar symbol (terminal name / nonterminal / "error")
+  id : Nat             -- symbol id (see `Production.rhsIds`)
+  name : String        -- grammar symbol (terminal name / nonterminal / "error"), for messages only
   val : Val
   stop : Nat
 deriving Inhabited
@@ -45,7 +47,8 @@ deriving Inhabited
 inductive Outcome
   | accept (v : Val)
   | error (e : ParseErr)
-  | panic (p : Panic)
+  | panic (msg : String)           -- Rust: `__symbol_type_mismatch()`, `unwrap()` / `panic!` inside the LR driver
+  | actionPanic (p : Panic)       -- an action stopped abnormally (see `PanicKind`)
   | fuelOut
 
 structure St where
@@ -98,35 +101,51 @@ def nextToken (s : St) : St × NextToken :=
     | some col => (s, .found t col)
     | none => (s, .done (.error (unrecognized T s (some t))))
 
+/-- `__start` of a reduction: the first popped symbol's start; for an empty production the start of
+    the lookahead, else the end of the symbol below, else 0 -/
+def reduceStart (popped rest : List Sym) (laStart : Option Nat) : Nat :=
+  match popped.head? with
+  | some f => f.start
+  | none => (laStart.orElse fun _ => rest.head?.map (·.stop)).getD 0
+
+def reduceStop (popped : List Sym) (start : Nat) : Nat :=
+  match popped.getLast? with
+  | some l => l.stop
+  | none => start
+
+def reduceArgs (popped : List Sym) (start stop : Nat) : List ArgV :=
+  if popped.length = 0 then [.locRef start, .locRef stop] else popped.map fun x => .triple x.start x.val x.stop
+
+/-- push the result of a reduction and take the GOTO transition -/
+def reducePush (s : St) (prod : Production) (rest : List Sym) (v : Val) (start stop : Nat) : St × Option Outcome :=
+  if prod.accept then ({ s with syms := rest }, some (.accept v)) else
+  let s := { s with syms := { start, id := T.ncols + prod.nt, name := prod.lhs, val := v, stop } :: rest }
+  if s.states.length < prod.pops + 1 then (s, some (.panic "reduce: state stack underflow")) else
+  let states := s.states.drop prod.pops
+  let next := gotoOf T (states.headD 0) prod.nt
+  ({ s with states := next :: states }, none)
+
+/-- a reduction whose right-hand side is on the stack: run the action, push the result -/
+def reduceCore (s : St) (prod : Production) (laStart : Option Nat) : St × Option Outcome :=
+  let k := prod.rhs.length
+  let popped := (s.syms.take k).reverse
+  let rest := s.syms.drop k
+  let start := reduceStart popped rest laStart
+  let stop := reduceStop popped start
+  match (evalAction T.actions 16 prod.action (reduceArgs popped start stop)).run env |>.run s.diags with
+  | .error e => (s, some (.actionPanic e))
+  | .ok (v, diags) => reducePush T { s with diags := diags } prod rest v start stop
+
 /-- the generated `__reduce`: `none` = continue, `some o` = the parse is over -/
 def reduce (s : St) (p : Nat) (laStart : Option Nat) : St × Option Outcome :=
   match T.prods[p]? with
-  | none => (s, some (.panic ⟨.driver, s!"invalid action code {p}"⟩))
+  | none => (s, some (.panic s!"invalid action code {p}"))
   | some prod =>
     let k := prod.rhs.length
-    if s.syms.length < k then (s, some (.panic ⟨.driver, "reduce: symbol stack underflow"⟩)) else
-    let popped := (s.syms.take k).reverse
-    let rest := s.syms.drop k
-    if popped.map (·.name) != prod.rhs then
-      (s, some (.panic ⟨.driver, s!"reduce {p}: symbol mismatch, expected {prod.rhs}, found {popped.map (·.name)}"⟩)) else
-    let start := match popped.head? with
-      | some f => f.start
-      | none => (laStart.orElse fun _ => rest.head?.map (·.stop)).getD 0
-    let stop := match popped.getLast? with
-      | some l => l.stop
-      | none => start
-    let args : List ArgV :=
-      if k = 0 then [.locRef start, .locRef stop] else popped.map fun x => .triple x.start x.val x.stop
-    match (evalAction T.actions 16 prod.action args).run env |>.run s.diags with
-    | .error e => (s, some (.panic e))
-    | .ok (v, diags) =>
-      let s := { s with diags := diags }
-      if prod.accept then ({ s with syms := rest }, some (.accept v)) else
-      let s := { s with syms := { start, name := prod.lhs, val := v, stop } :: rest }
-      if s.states.length < prod.pops + 1 then (s, some (.panic ⟨.driver, "reduce: state stack underflow"⟩)) else
-      let states := s.states.drop prod.pops
-      let next := gotoOf T (states.headD 0) prod.nt
-      ({ s with states := next :: states }, none)
+    if s.syms.length < k then (s, some (.panic "reduce: symbol stack underflow")) else
+    if ((s.syms.take k).reverse).map (·.id) != prod.rhsIds then
+      (s, some (.panic s!"reduce {p}: symbol mismatch, expected {prod.rhs}")) else
+    reduceCore T env s prod laStart
 
 /-- `accepts` (simulation on a copy of the state stack) -/
 def accepts (errorState : Nat) (states : List Nat) (col : Option Nat) : Nat → Option Bool
@@ -152,74 +171,89 @@ def accepts (errorState : Nat) (states : List Nat) (col : Option Nat) : Nat → 
           | none => some true
     loop (errorState :: states) fuel
 
+/-- `error_recovery`, first loop: perform all reductions triggered by having ERROR in the lookahead -/
+def reduceOnError (la : Option Token) (s : St) : Nat → St × Option Outcome
+  | 0 => (s, some .fuelOut)
+  | f + 1 =>
+    match asReduce (errorAction T (topState s)) with
+    | some r =>
+      match reduce T env s r (la.map (·.start)) with
+      | (s, some o) => (s, some o)
+      | (s, none) => reduceOnError la s f
+    | none => (s, none)
+
+/-- `for top in (0..states_len).rev()`: the deepest-from-the-top state that can shift `error` and
+    then accepts the lookahead. States are stored top first: index `top` of the Rust vector is
+    position `statesLen - 1 - top` -/
+def errorCandidate (statesLen : Nat) (s : St) (col : Option Nat) : Option Nat :=
+  (List.range statesLen).reverse.find? fun top =>
+    let state := (s.states.drop (statesLen - 1 - top)).headD 0
+    match asShift (errorAction T state) with
+    | some errState => (accepts T errState (s.states.drop (statesLen - 1 - top)) col (statesLen + 1024)).getD false
+    | none => false
+
+/-- `error_recovery`, second loop: drop tokens until some state can take over -/
+def findState (error : ParseErr) (statesLen : Nat) (s : St) (la : Option Token) (col : Option Nat) (dropped : List Token) :
+    Nat → St × Sum NextToken (Nat × Option Token × Option Nat × List Token)
+  | 0 => (s, .inl (.done .fuelOut))
+  | f + 1 =>
+    match errorCandidate T statesLen s col with
+    | some top => (s, .inr (top, la, col, dropped))
+    | none =>
+      match la with
+      | none => (s, .inl (.done (.error error)))
+      | some l =>
+        let dropped := dropped ++ [l]
+        match nextToken T s with
+        | (s, .found t c) => findState error statesLen s (some t) (some c) dropped f
+        | (s, .eof) => findState error statesLen s none none dropped f
+        | (s, .done o) => (s, .inl (.done o))
+
+/-- `__start` / `__end` of the `error` symbol (symbols[i] in Rust order = syms.reverse[i]) -/
+def recoverStart (s : St) (top : Nat) (dropped : List Token) : Nat :=
+  let symsV := s.syms.reverse
+  match symsV[top]? with
+  | some sym => sym.start
+  | none => match dropped.head? with
+    | some t => t.start
+    | none => if top > 0 then (symsV[top - 1]?.map (·.stop)).getD 0 else 0
+
+def recoverStop (statesLen : Nat) (s : St) (top : Nat) (la : Option Token) (dropped : List Token) (start : Nat) : Nat :=
+  match dropped.getLast? with
+  | some t => t.stop
+  | none =>
+    if statesLen - 1 > top then (s.syms.head?.map (·.stop)).getD 0
+    else match la with
+      | some l => l.start
+      | none => start
+
+/-- `error_recovery`, the end: truncate the stacks, shift `error` -/
+def recoverPush (error : ParseErr) (statesLen : Nat) (s : St) (top : Nat) (la : Option Token) (col : Option Nat)
+    (dropped : List Token) : St × NextToken :=
+  let start := recoverStart s top dropped
+  let stop := recoverStop statesLen s top la dropped start
+  let states := s.states.drop (statesLen - 1 - top)      -- truncate(top + 1)
+  let syms := (s.syms.reverse.take top).reverse           -- truncate(top)
+  match asShift (errorAction T (states.headD 0)) with
+  | none => (s, .done (.panic "error_recovery: error_action.as_shift().unwrap()"))
+  | some errState =>
+    let s := { s with states := errState :: states,
+                      syms := { start, id := T.ncols - 1, name := "error", val := .recovery error dropped, stop } :: syms }
+    match la, col with
+    | some l, some c => (s, .found l c)
+    | none, none => (s, .eof)
+    | _, _ => (s, .done (.panic "lookahead and token_index mismatched"))
+
 /-- `error_recovery` -/
 def errorRecovery (s : St) (la : Option Token) (col : Option Nat) (fuel : Nat) : St × NextToken :=
   let error := unrecognized T s la
-  -- perform all reductions triggered by having ERROR in the lookahead
-  let rec reduceOnError (s : St) : Nat → St × Option Outcome
-    | 0 => (s, some .fuelOut)
-    | f + 1 =>
-      match asReduce (errorAction T (topState s)) with
-      | some r =>
-        match reduce T env s r (la.map (·.start)) with
-        | (s, some o) => (s, some o)
-        | (s, none) => reduceOnError s f
-      | none => (s, none)
-  match reduceOnError s fuel with
+  match reduceOnError T env la s fuel with
   | (s, some o) => (s, .done o)
   | (s, none) =>
     let statesLen := s.states.length
-    -- states are stored top first: index `top` of the Rust vector is position `statesLen - 1 - top`
-    let rec findState (s : St) (la : Option Token) (col : Option Nat) (dropped : List Token) :
-        Nat → St × Sum NextToken (Nat × Option Token × Option Nat × List Token)
-      | 0 => (s, .inl (.done .fuelOut))
-      | f + 1 =>
-        -- for top in (0..states_len).rev()
-        let candidates := (List.range statesLen).reverse
-        let found := candidates.find? fun top =>
-          let state := (s.states.drop (statesLen - 1 - top)).headD 0
-          match asShift (errorAction T state) with
-          | some errState => (accepts T errState (s.states.drop (statesLen - 1 - top)) col (statesLen + 1024)).getD false
-          | none => false
-        match found with
-        | some top => (s, .inr (top, la, col, dropped))
-        | none =>
-          match la with
-          | none => (s, .inl (.done (.error error)))
-          | some l =>
-            let dropped := dropped ++ [l]
-            match nextToken T s with
-            | (s, .found t c) => findState s (some t) (some c) dropped f
-            | (s, .eof) => findState s none none dropped f
-            | (s, .done o) => (s, .inl (.done o))
-    match findState s la col [] fuel with
+    match findState T error statesLen s la col [] fuel with
     | (s, .inl nt) => (s, nt)
-    | (s, .inr (top, la, col, dropped)) =>
-      -- symbols[i] in Rust order = syms.reverse[i]
-      let symsV := s.syms.reverse
-      let start := match symsV[top]? with
-        | some sym => sym.start
-        | none => match dropped.head? with
-          | some t => t.start
-          | none => if top > 0 then (symsV[top - 1]?.map (·.stop)).getD 0 else 0
-      let stop := match dropped.getLast? with
-        | some t => t.stop
-        | none =>
-          if statesLen - 1 > top then (s.syms.head?.map (·.stop)).getD 0
-          else match la with
-            | some l => l.start
-            | none => start
-      let states := s.states.drop (statesLen - 1 - top)      -- truncate(top + 1)
-      let syms := (symsV.take top).reverse                    -- truncate(top)
-      match asShift (errorAction T (states.headD 0)) with
-      | none => (s, .done (.panic ⟨.driver, "error_recovery: error_action.as_shift().unwrap()"⟩))
-      | some errState =>
-        let s := { s with states := errState :: states,
-                          syms := { start, name := "error", val := .recovery error dropped, stop } :: syms }
-        match la, col with
-        | some l, some c => (s, .found l c)
-        | none, none => (s, .eof)
-        | _, _ => (s, .done (.panic ⟨.driver, "lookahead and token_index mismatched"⟩))
+    | (s, .inr (top, la, col, dropped)) => recoverPush T error statesLen s top la col dropped
 
 /-- `parse_eof` -/
 def parseEof (s : St) : Nat → St × Outcome
@@ -232,7 +266,7 @@ def parseEof (s : St) : Nat → St × Outcome
       | (s, none) => parseEof s fuel
     | none =>
       match errorRecovery T env s none none fuel with
-      | (s, .found _ _) => (s, .panic ⟨.driver, "cannot find token at EOF"⟩)
+      | (s, .found _ _) => (s, .panic "cannot find token at EOF")
       | (s, .done o) => (s, o)
       | (s, .eof) => parseEof s fuel
 
@@ -245,7 +279,7 @@ def parseInner (s : St) (la : Token) (col : Nat) : Nat → St × Sum Unit Outcom
     | some target =>
       let name := T.terminals[col]?.getD "?"
       ({ s with states := target :: s.states,
-                syms := { start := la.start, name, val := .tok la.text, stop := la.stop } :: s.syms }, .inl ())
+                syms := { start := la.start, id := col, name, val := .tok la.text, stop := la.stop } :: s.syms }, .inl ())
     | none =>
       match asReduce a with
       | some r =>
@@ -271,24 +305,45 @@ def parseLoop (s : St) : Nat → St × Outcome
       | (s, .inl ()) => parseLoop s fuel
       | (s, .inr o) => (s, o)
 
+/-- why `add_content` of the model does not return a result -/
+inductive Stop
+  | driver (msg : String)          -- a panic of the LR driver itself
+  | action (p : Panic)             -- an action (or the error formatter) stopped abnormally
+  | fuelOut                        -- the model's step bound was reached
+  | acceptShape                    -- the accepted value is not an `Option<Aidl>` (model only)
+
+def Stop.msg : Stop → String
+  | .driver m => m
+  | .action p => p.msg
+  | .fuelOut => "fuelOut"
+  | .acceptShape => "accept: unexpected value"
+
 /-- the result handling of `Parser::add_content` (its `match rule_result`) -/
-def finish (id : String) (s : St) (o : Outcome) : Except String FileResult :=
+def finishE (id : String) (s : St) (o : Outcome) : Except Stop FileResult :=
   match o with
-  | .panic m => .error m.msg
-  | .fuelOut => .error "fuelOut"
+  | .panic m => .error (.driver m)
+  | .actionPanic p => .error (.action p)
+  | .fuelOut => .error .fuelOut
   | .accept v =>
     match v with
     | .none_ => .ok { id, ast := none, diags := s.diags }
     | .some_ (.aidl a) => .ok { id, ast := some a, diags := s.diags }
-    | _ => .error "accept: unexpected value"
+    | _ => .error .acceptShape
   | .error e =>
     match (fromParseError e).run env |>.run s.diags with
-    | .error m => .error m.msg
+    | .error m => .error (.action m)
     | .ok (d, diags) => .ok { id, ast := none, diags := diags ++ [d] }
 
+def parseFuel (text : String) : Nat := 64 * (text.toList.length + 2) + 1024
+
 /-- `OptAidlParser::parse` followed by the result handling of `Parser::add_content` -/
+def addContentE (id : String) (text : String) : Except Stop FileResult :=
+  let r := parseLoop T env { input := text.toList } (parseFuel text)
+  finishE env id r.1 r.2
+
 def addContent (id : String) (text : String) : Except String FileResult :=
-  let r := parseLoop T env { input := text.toList } (64 * (text.toList.length + 2) + 1024)
-  finish env id r.1 r.2
+  match addContentE T env id text with
+  | .ok r => .ok r
+  | .error st => .error st.msg
 
 end Aidl.Lr
